@@ -208,8 +208,37 @@ func init() {
 			alt2 = alt
 			radius = []float64{0.1, 0.3, 0.6}[rng.Intn(3)] * math.Min(wMetres, wAlt*4)
 		}
+		corner := false
+		if !anyZoom && rng.Intn(8) == 0 {
+			// the north-west corner of the grid at a fine zoom: column and row numbers of one and two digits side by side
+			// ((1,23) and (12,3) are different columns of the search box), a radius of about one voxel, measurement mostly on
+			corner = true
+			h = int64(17 + rng.Intn(6))
+			v = zoomNear(h, 2, 2)
+			n := math.Pow(2, float64(h))
+			wLon = 360 / n
+			wAlt = math.Pow(2, float64(25-v))
+			cell := func(x, y float64) (float64, float64) {
+				return -180 + x*wLon, math.Atan(math.Sinh(math.Pi*(1-2*y/n))) * 180 / math.Pi
+			}
+			x1, y1 := float64(rng.Intn(14))+rng.Float64(), float64(rng.Intn(30))+rng.Float64()
+			x2, y2 := x1+float64(rng.Intn(13)-6), y1+float64(rng.Intn(25)-12)
+			if rng.Intn(3) == 0 {
+				x1, y1, x2, y2 = 1.5, 22.99, 12.5, 4.99
+			}
+			x2, y2 = math.Max(0.01, x2), math.Max(0.01, y2)
+			lon, lat = cell(x1, y1)
+			lon2, lat2 = cell(x2, y2)
+			alt = (rng.Float64() - 0.5) * 2 * wAlt
+			alt2 = alt
+			if rng.Intn(3) == 0 {
+				alt2 = alt + (rng.Float64()-0.5)*wAlt
+			}
+			wMetres = 40075016.0 * math.Cos(lat*math.Pi/180) / n
+			radius = []float64{0.3, 0.3, 0.8, 1.4}[rng.Intn(4)] * math.Min(wMetres, wAlt*4)
+		}
 		skips := "0"
-		if rng.Intn(3) == 0 {
+		if rng.Intn(3) == 0 && !(corner && rng.Intn(2) == 0) {
 			skips = "1"
 		}
 		args := []string{fbits(lon), fbits(lat), fbits(alt), fbits(lon2), fbits(lat2), fbits(alt2), fbits(radius), s64(h), s64(v), skips}
